@@ -3,7 +3,9 @@ package main
 import (
 	"fmt"
 	"go/types"
+	"regexp"
 	"sort"
+	"strconv"
 	"strings"
 
 	"golang.org/x/tools/go/ssa"
@@ -187,6 +189,8 @@ type Ctx struct {
 	key   string
 	scout int // >0: effects discovery, obligations suppressed
 	written map[string]bool // heaps written (scout bookkeeping)
+	writtenAt map[string]map[string]Term // heap -> stable base terms written (scout bookkeeping)
+	scoutFresh int // value of the fresh counter when the current scout run started
 	paths int
 	notes []string
 	opaque map[string]bool
@@ -202,6 +206,7 @@ type Ctx struct {
 	pendingOnce *onceCall
 	localRefs []string // refs allocated during the current effects-discovery run
 	witness   []WitnessTerm
+	paramMode bool
 }
 
 func (c *Ctx) freshConst(hint string, s Sort) Term {
@@ -239,14 +244,45 @@ func (c *Ctx) isLocalRef(base Term) bool {
 }
 
 func (c *Ctx) setHeapAt(s *State, name string, t Term, base Term) {
-	if c.written != nil && c.isLocalRef(base) {
+	if c.written != nil {
 		saved := c.written
 		c.written = nil
 		c.setHeap(s, name, t)
 		c.written = saved
+		if c.isLocalRef(base) {
+			return
+		}
+		if c.stableBase(base) {
+			if c.writtenAt == nil {
+				c.writtenAt = map[string]map[string]Term{}
+			}
+			if c.writtenAt[name] == nil {
+				c.writtenAt[name] = map[string]Term{}
+			}
+			c.writtenAt[name][base.S] = base
+			return
+		}
+		c.written[name] = true
 		return
 	}
 	c.setHeap(s, name, t)
+}
+
+var freshNumRe = regexp.MustCompile(`!(\d+)`)
+
+// stableBase: every engine-generated symbol in the term was created before the current
+// effects-discovery run started, so the term denotes the same object for the caller.
+func (c *Ctx) stableBase(base Term) bool {
+	if strings.HasPrefix(base.S, "(select") || strings.Contains(base.S, "(ite") {
+		return false
+	}
+	for _, m := range freshNumRe.FindAllStringSubmatch(base.S, -1) {
+		n, _ := strconv.Atoi(m[1])
+		if n > c.scoutFresh {
+			return false
+		}
+	}
+	return true
 }
 
 func (c *Ctx) setHeap(s *State, name string, t Term) {
@@ -263,6 +299,17 @@ func (c *Ctx) setHeap(s *State, name string, t Term) {
 func (c *Ctx) havocHeap(s *State, name string) {
 	sort, ok := c.eng.heapSorts[name]
 	if !ok {
+		return
+	}
+	if name == "Clock" {
+		// the clock only moves forward
+		old := c.getHeap(s, "Clock", SInt)
+		nv := c.freshConst("hv|Clock", SInt)
+		s.assume(Ge(nv, old))
+		s.heap[name] = nv
+		if c.written != nil {
+			c.written[name] = true
+		}
 		return
 	}
 	s.heap[name] = c.freshConst("hv|"+name, sort)
@@ -583,6 +630,10 @@ func (c *Ctx) freshValue(s *State, t types.Type, hint string) Value {
 	}
 	var ts []Term
 	for _, cp := range cs {
+		if c.paramMode && cp.Suffix == "#off" {
+			ts = append(ts, IntLit(0))
+			continue
+		}
 		ts = append(ts, c.freshConst(hint+cp.Suffix, cp.Sort))
 	}
 	v := unflatten(t, ts)
